@@ -121,24 +121,29 @@ def r1_r2_init(repo, rep):
   sdf, sshare, sgeos = store('df'), store('geo_share'), store('geos_in_data')
   share_txt = full(sshare, sshare.ast.value)
   df_txt = full(sdf, sdf.ast.value)
-  m = re.fullmatch(r'(.+) / sum\((.+)\)', share_txt) or re.fullmatch(r'(.+) / (.+)\.sum\(\)', share_txt)
-  rep.check(m is not None and m.group(1) == m.group(2), 'R1/ingestion', 'geo_share = means / sum(means)', f.qualname, 'geo_share = ' + share_txt[:140],
-            'geo_share is `%s`, not each geo\'s mean divided by the sum of the means' % share_txt[:120], f.loc(sshare.ast))
-  means = m.group(1) if m else ''
-  mm = re.fullmatch(r'(.+)\.mean\(axis=1\)\.sort_values\(ascending=False\)', means)
-  rep.check(mm is not None, 'R1/ingestion', 'means are row means sorted in decreasing order', f.qualname, 'means = ' + means[:140],
-            'the geo means are `%s`, not the row means (over dates) sorted descending' % means[:120], f.loc(sshare.ast))
-  table = mm.group(1) if mm else ''
-  filled = ('fill_value=0' in table and 'pivot_table(' in table) or table.endswith('.fillna(0)')
-  rep.check(filled, 'R1/ingestion', 'means and shares are computed from the zero-filled table (missing cells count as 0)', f.qualname, 'table = ' + table[:160],
-            'the means/shares/order are computed from `%s`, in which missing (geo, date) cells are not zero: geos with missing cells get a mean over observed dates only'
-            % table[:120], f.loc(pc))
-  okdf = re.fullmatch(r'(.+)\.loc\[list\((.+)\.index\)\]', df_txt)
-  rep.check(okdf is not None and okdf.group(2) == means and (okdf.group(1) == table), 'R1/ingestion', 'rows of df are reordered by decreasing mean', f.qualname,
-            'self.df = ' + df_txt[:160], 'self.df is `%s`: not the zero-filled pivot table with rows in the order of the sorted means' % df_txt[:120], f.loc(sdf.ast))
-  gtxt = re.sub(r'^set\(list\((.*)\)\)$', r'set(\1)', full(sgeos, sgeos.ast.value))      # set(list(x)) is set(x)
-  rep.check(gtxt == 'set(%s.index)' % means, 'R1/ingestion', 'geos_in_data = IDs of the table rows', f.qualname, gtxt[:120],
-            'geos_in_data is `%s`' % gtxt[:100], f.loc(sgeos.ast), nontrivial=False)
+  m = re.fullmatch(r'(.+) / sum\((.+)\)', share_txt) or re.fullmatch(r'(.+) / (.+)\.sum\(\)', share_txt) or re.fullmatch(r'(.+) / np\.sum\((.+)\)', share_txt)
+  VOC_I = (resp, frame)
+  rep.check_term(m is not None and m.group(1) == m.group(2), share_txt, VOC_I, 'R1/ingestion', 'geo_share = means / sum(means)', f.qualname, 'geo_share = ' + share_txt[:140],
+                 'geo_share is `%s`, not each geo\'s mean divided by the sum of the means' % share_txt[:120], f.loc(sshare.ast))
+  if m is None or m.group(1) != m.group(2):
+    rep.undecided('R1/ingestion', 'means / table / row order', 'the share is not of the form means / sum(means): the clauses that start from it are not examined', f.loc(sshare.ast))
+  else:
+    means = m.group(1)
+    mm = re.fullmatch(r'(.+)\.mean\((?:axis=)?1\)\.sort_values\(ascending=False\)', means)
+    rep.check_term(mm is not None, means, VOC_I, 'R1/ingestion', 'means are row means sorted in decreasing order', f.qualname, 'means = ' + means[:140],
+                   'the geo means are `%s`, not the row means (over dates) sorted descending' % means[:120], f.loc(sshare.ast))
+    if mm is not None:
+      table = mm.group(1)
+      filled = ('fill_value=0' in table and 'pivot_table(' in table) or table.endswith('.fillna(0)')
+      rep.check_term(filled, table, VOC_I, 'R1/ingestion', 'means and shares are computed from the zero-filled table (missing cells count as 0)', f.qualname, 'table = ' + table[:160],
+                     'the means/shares/order are computed from `%s`, in which missing (geo, date) cells are not zero: geos with missing cells get a mean over observed dates only'
+                     % table[:120], f.loc(pc))
+      okdf = re.fullmatch(r'(.+)\.loc\[list\((.+)\.index\)\]', df_txt) or re.fullmatch(r'(.+)\.loc\[(.+)\.index\]', df_txt) or re.fullmatch(r'(.+)\.reindex\((.+)\.index\)', df_txt)
+      rep.check_term(okdf is not None and okdf.group(2) == means and (okdf.group(1) == table), df_txt, VOC_I, 'R1/ingestion', 'rows of df are reordered by decreasing mean', f.qualname,
+                     'self.df = ' + df_txt[:160], 'self.df is `%s`: not the zero-filled pivot table with rows in the order of the sorted means' % df_txt[:120], f.loc(sdf.ast))
+    gtxt = re.sub(r'^set\(list\((.*)\)\)$', r'set(\1)', full(sgeos, sgeos.ast.value))      # set(list(x)) is set(x)
+    rep.check_term(gtxt == 'set(%s.index)' % means, gtxt, VOC_I, 'R1/ingestion', 'geos_in_data = IDs of the table rows', f.qualname, gtxt[:120],
+                   'geos_in_data is `%s`' % gtxt[:100], f.loc(sgeos.ast), nontrivial=False)
   # R2 reconciliation, on the set algebra: atoms c, t, x (the eligibility row of a generic geo) and D (the geo is in the data)
   from mmsa.props import c16
   env4, fields4, _ = c16.class_functions(repo, extra_atoms=('D',))
@@ -197,6 +202,22 @@ def r1_r2_init(repo, rep):
       for sub in walk_no_nested(n.ast):
         if isinstance(sub, ast.Subscript) and re.search(r'geo_eligibility\w*\.data\.loc$', norm(sub.value)):
           sel, selnode = sub, n
+  if guard is None and not n_guard_candidates:
+    # any raising test that mentions the eligibility geos (subset tests `not A <= B`, walrus forms, helper predicates)
+    for n in g.nodes:
+      if n.kind != 'test':
+        continue
+      try:
+        t_ = norm(rd.expand(n, n.expr, keep=keepr, aliases=True)[0])
+      except Exception:
+        t_ = norm(n.expr)
+      if not (any(nm in t_ for nm in ga_names) or 'geo_eligibility' in t_):
+        continue
+      for m_, l_ in g.succ[n]:
+        if l_ in ('true', 'false'):
+          reach_ = g.reachable(m_, cfgmod.no_exc)
+          if g.exit not in reach_ and any(r.kind == 'raisestmt' for r in reach_):
+            n_guard_candidates += 1
   if guard is None:
     if n_guard_candidates:
       rep.undecided('R2/reconciliation', 'missing-geo guard', 'a raising guard on the eligibility and data geos exists but its set expression is not understood', f.loc())
